@@ -171,6 +171,8 @@ struct Client {
     joined_sent: Vec<i64>,
     reader: Option<std::thread::JoinHandle<()>>,
     behaviour: &'static str,
+    /// set by the reader thread when the peer (the exporter) closed or reset the connection
+    eof: Arc<AtomicBool>,
 }
 
 fn connect_client(id: usize, addr: SocketAddr, behaviour: &'static str, after: usize) -> Option<Client> {
@@ -179,7 +181,8 @@ fn connect_client(id: usize, addr: SocketAddr, behaviour: &'static str, after: u
     let buf = Arc::new(Mutex::new(Vec::new()));
     let reading = Arc::new(AtomicBool::new(true));
     let stop = Arc::new(AtomicBool::new(false));
-    let (b2, r2, st2) = (buf.clone(), reading.clone(), stop.clone());
+    let eof = Arc::new(AtomicBool::new(false));
+    let (b2, r2, st2, eof2) = (buf.clone(), reading.clone(), stop.clone(), eof.clone());
     let mut rs = stream.try_clone().ok()?;
     let reader = std::thread::spawn(move || {
         let mut tmp = [0u8; 65536];
@@ -192,14 +195,20 @@ fn connect_client(id: usize, addr: SocketAddr, behaviour: &'static str, after: u
                 continue;
             }
             match rs.read(&mut tmp) {
-                Ok(0) => return,
+                Ok(0) => {
+                    eof2.store(true, Ordering::SeqCst);
+                    return;
+                }
                 Ok(n) => b2.lock().unwrap().extend_from_slice(&tmp[..n]),
                 Err(e) if e.kind() == std::io::ErrorKind::WouldBlock || e.kind() == std::io::ErrorKind::TimedOut => {}
-                Err(_) => return,
+                Err(_) => {
+                    eof2.store(true, Ordering::SeqCst);
+                    return;
+                }
             }
         }
     });
-    Some(Client { id, stream: Some(stream), buf, reading, stop, closed_by_us: false, connected_after_burst: after, joined_sent: Vec::new(), reader: Some(reader), behaviour })
+    Some(Client { id, stream: Some(stream), buf, reading, stop, closed_by_us: false, connected_after_burst: after, joined_sent: Vec::new(), reader: Some(reader), behaviour, eof })
 }
 
 fn max_seq(buf: &Arc<Mutex<Vec<u8>>>, emitter: &str) -> (i64, usize) {
@@ -584,7 +593,14 @@ fn run_stall(a: &Args) -> Report {
     let mut r = Rng::new(a.shard_seed());
     let scenarios = a.budget(6, 300);
     for sc in 0..scenarios {
-        let buffer_size: Option<usize> = *r.pick(&[None, Some(64), Some(1024)]);
+        // the first two scenarios of every shard are fixed classes (small buffer with bursts of exactly the buffer; no
+        // limit with thousands of small frames), the rest are drawn
+        let mut buffer_size: Option<usize> = *r.pick(&[None, None, Some(4), Some(8), Some(64), Some(1024)]);
+        if sc == 0 {
+            buffer_size = Some(*r.pick(&[4usize, 8]));
+        } else if sc == 1 {
+            buffer_size = None;
+        }
         let port = {
             let l = TcpListener::bind("127.0.0.1:0").unwrap();
             l.local_addr().unwrap().port()
@@ -615,10 +631,14 @@ fn run_stall(a: &Args) -> Report {
         staller.reading.store(false, Ordering::SeqCst);
         std::thread::sleep(Duration::from_millis(10));
         // emit frames with a large label so that the stalled client's socket fills quickly
-        let pad_len = *r.pick(&[16usize << 10, 64 << 10, 300 << 10]);
+        // with no buffer limit also many small frames: the stalled client falls thousands of frames behind and must
+        // still be sent every one of them once it reads again
+        let pad_len = if buffer_size.is_none() && (sc == 1 || r.chance(1, 2)) { 1usize << 10 } else { *r.pick(&[16usize << 10, 64 << 10, 300 << 10]) };
         let pad: String = std::iter::repeat('p').take(pad_len).collect();
-        let total = ((12usize << 20) / pad_len).max(30).min(600) as i64;
-        let per_round = buffer_size.map(|b| (b / 2).max(1)).unwrap_or(30).min(30) as i64;
+        let total = ((12usize << 20) / pad_len).max(30).min(if pad_len <= 1024 { 14_000 } else { 600 }) as i64;
+        // bursts of half the buffer, or (small buffers) of exactly the buffer: the channel is empty when a burst starts
+        let full_bursts = matches!(buffer_size, Some(b) if b <= 64) && (sc == 0 || r.chance(1, 2));
+        let per_round = if full_bursts { buffer_size.unwrap() as i64 } else { buffer_size.map(|b| (b / 2).max(1)).unwrap_or(30).min(30) as i64 };
         let mut sent = -1i64;
         let mut stalled_out = false;
         while sent + 1 < total {
@@ -631,7 +651,7 @@ fn run_stall(a: &Args) -> Report {
             sent += n;
             let t2 = Instant::now();
             while max_seq(&reader.buf, "0").0 < sent {
-                if t2.elapsed() > Duration::from_secs(10) {
+                if t2.elapsed() > Duration::from_secs(10) || reader.eof.load(Ordering::SeqCst) {
                     stalled_out = true;
                     break;
                 }
@@ -649,7 +669,24 @@ fn run_stall(a: &Args) -> Report {
             std::thread::sleep(Duration::from_millis(30));
         }
         std::thread::sleep(Duration::from_millis(200));
-        let desc = jo! {"buffer_size" => format!("{:?}", buffer_size), "label_bytes" => pad_len, "frames_sent_while_stalled" => total};
+        let desc = jo! {"buffer_size" => format!("{:?}", buffer_size), "label_bytes" => pad_len, "frames_sent_while_stalled" => total, "burst" => per_round};
+        // the exporter must never hang up on a client (nobody here closed a connection yet)
+        if reader.eof.load(Ordering::SeqCst) || staller.eof.load(Ordering::SeqCst) {
+            rep.violation("C11:exporter-disconnected-client", jo! {"what" => "the exporter closed or reset the connection of a client that had not gone away (transport thread gone?)", "reading_client_disconnected" => reader.eof.load(Ordering::SeqCst), "stalled_client_disconnected" => staller.eof.load(Ordering::SeqCst), "scenario" => desc.clone()});
+        }
+        // no buffer limit: the client that stalled owes nothing to a discard policy; once it reads again it must be sent
+        // every frame (bounded wait for it to catch up; not catching up is inconclusive, a gap followed by later frames is not)
+        let mut staller_caught_up = true;
+        if buffer_size.is_none() && !stalled_out {
+            let t3 = Instant::now();
+            while max_seq(&staller.buf, "0").0 < total + 4 {
+                if t3.elapsed() > Duration::from_secs(20) || staller.eof.load(Ordering::SeqCst) {
+                    staller_caught_up = false;
+                    break;
+                }
+                std::thread::sleep(Duration::from_millis(5));
+            }
+        }
         let mut hcase = mix(sc, pad_len as u64);
         for c in [&mut reader, &mut staller] {
             c.stop.store(true, Ordering::SeqCst);
@@ -682,6 +719,10 @@ fn run_stall(a: &Args) -> Report {
                                 rep.violation(if seq == last { "C11:duplicated-frame" } else { "C11:emission-order-violated" }, jo! {"what" => "duplicate or out-of-order frame", "seq" => seq, "after" => last, "client" => c.behaviour, "scenario" => desc.clone()});
                                 break;
                             }
+                            if c.behaviour == "heavy-staller" && buffer_size.is_none() && seq != last + 1 {
+                                rep.violation("C11:gap-in-stream-of-resumed-client:no-buffer-limit", jo! {"what" => "with buffer_size(None) a client that stopped reading and resumed was not sent every frame: older frames were discarded although no limit is configured", "missing_from" => last + 1, "next_received" => seq, "scenario" => desc.clone()});
+                                break;
+                            }
                             if c.behaviour == "reader" && seq != last + 1 && !stalled_out {
                                 rep.violation("C11:gap-in-reading-client-stream", jo! {"what" => "the reading client missed frames while another client was stalled", "missing_from" => last + 1, "next_received" => seq, "scenario" => desc.clone()});
                                 break;
@@ -693,8 +734,11 @@ fn run_stall(a: &Args) -> Report {
                 }
             }
         }
-        if stalled_out {
+        if stalled_out && !reader.eof.load(Ordering::SeqCst) {
             rep.inconclusive("reading client did not acknowledge within the watchdog");
+        }
+        if !staller_caught_up {
+            rep.inconclusive("resumed client did not catch up within the watchdog");
         }
         rep.case(hcase, true);
         if rep.want_sample() {
